@@ -688,7 +688,9 @@ class Facts:
         if not os.path.exists(kp):
             return d
         with open(kp) as fh:
-            known = json.load(fh).get(crate)
+            allk = json.load(fh)
+        d = self._resolve_field_renames(crate, d, (allk.get("__adts__") or {}).get(crate) or {})
+        known = allk.get(crate)
         if not isinstance(known, dict):
             return d
         cur = {}
@@ -719,6 +721,39 @@ class Facts:
             self.renamed[k] = u
         return json.loads(text)
 
+    def _resolve_field_renames(self, crate, d, known_adts):
+        """A private field of a struct of the confirmed tree that is gone, while the struct has exactly one new field of the
+        same type, has been renamed: it gets its old name back everywhere (rules name fields such as `.danglings`)."""
+        if not known_adts:
+            return d
+        all_names = {x["name"] for a in d["adts"] for v in a["variants"] for x in v["fields"]}
+        pairs = {}
+        for a in d["adts"]:
+            kf = known_adts.get(a["path"])
+            if not kf or len(a["variants"]) != 1:
+                continue
+            cur = [(x["name"], x["ty"]) for x in a["variants"][0]["fields"]]
+            kn = {n for n, _ in kf}
+            cn = {n for n, _ in cur}
+            gone = [(n, t) for n, t in kf if n not in cn]
+            new = [(n, t) for n, t in cur if n not in kn]
+            for n, t in gone:
+                c = [m for m, mt in new if mt == t]
+                if len(c) == 1 and len([1 for g2, t2 in gone if t2 == t]) == 1 and c[0] not in pairs and not c[0].isdigit():
+                    # the new name must not be a field of any other struct of the crate (the replacement is by name)
+                    others = {x["name"] for b in d["adts"] if b is not a for v in b["variants"] for x in v["fields"]}
+                    if c[0] not in others and n not in (all_names - {n}):
+                        pairs[c[0]] = n
+        if not pairs:
+            return d
+        text = json.dumps(d)
+        for new, old in pairs.items():
+            text = text.replace('".%s"' % new, '".%s"' % old).replace('"name": "%s"' % new, '"name": "%s"' % old)
+            # aggregate field lists and debug names: exact JSON strings only
+            text = re.sub(r'(?:(?<=\[)|(?<=, ))"%s"(?=[,\]])' % re.escape(new), '"%s"' % old, text)
+            self.renamed["." + old] = "." + new
+        return json.loads(text)
+
     # ---- helper absorption: a crate-local function the rules have never seen is part of its callers
     def normalise(self):
         """Functions that are not in rules/known_fns.json (the items of the tree the rules were confirmed on), are not
@@ -729,7 +764,7 @@ class Facts:
         if not os.path.exists(kp):
             return
         with open(kp) as fh:
-            known = {c: set(v) for c, v in json.load(fh).items()}      # dict keys (path -> signature) or a plain list
+            known = {c: set(v) for c, v in json.load(fh).items() if not c.startswith("__")}      # dict keys (path -> signature) or a plain list
 
         def base(p):
             return re.sub(r"#\d+$", "", p)
